@@ -219,3 +219,34 @@ def add_salt(rng, desc, n_open=0, n_short=0):
             pair = (pb['n1'], pb['n2']) if rng.random() < 0.5 else (pb['n2'], pb['n1'])
             d['branches'].insert(rng.randrange(len(d['branches']) + 1), {'id': free_ids.pop(), 'n1': pair[0], 'n2': pair[1], 'ctor': 'short_circuit'})
     return d
+
+
+def add_self_loops(r2, d, n=None):
+    """append 1-2 elements whose two terminals sit on the same node (a component bridged by a wire): it carries no voltage, a passive
+    one no current, and it must not influence the rest of the network (only kinds that keep the network well-posed)"""
+    from .. import netdesc
+    nodes_ = netdesc.nodes(d)
+    used = {b['id'] for b in d['branches']}
+    for j in range(n or r2.randint(1, 2)):
+        node = r2.choice(nodes_)
+        kind = r2.choice(['resistor', 'conductor', 'impedance', 'admittance', 'current_source', 'current_source_lossy', 'voltage_source_lossy'])
+        bid = next(i for i in (f'loop{j}', f'loop{j}x', f'lp{j}') if i not in used)
+        used.add(bid)
+        b = {'id': bid, 'n1': node, 'n2': node}
+        v = value(r2, 0, 3)
+        if kind == 'resistor':
+            b.update(ctor='resistor', R=v)
+        elif kind == 'conductor':
+            b.update(ctor='conductor', G=1 / v)
+        elif kind == 'impedance':
+            b.update(ctor='impedance', Z=[v, -v / 3])
+        elif kind == 'admittance':
+            b.update(ctor='admittance', Y=[1 / v, 0.2 / v])
+        elif kind == 'current_source':
+            b.update(ctor='current_source', I=value(r2, -2, 0))
+        elif kind == 'current_source_lossy':
+            b.update(ctor='current_source', I=value(r2, -2, 0), Y=1 / v)
+        else:
+            b.update(ctor='voltage_source', V=value(r2, 0, 1), Z=v)
+        d['branches'].insert(r2.randrange(len(d['branches']) + 1), b)
+    return d
